@@ -389,9 +389,9 @@ def compare_rock(sc, o, l):
         got_tr = [] if real_tr.get(i, "-") == "-" else strip_versions(real_tr[i])
         if want_tr != got_tr:
             return False
-    fm = re.match(r"final (.*) ; (.*) ; (.*)$", pp[-1]) if pp else None
-    if not fm or f["start"] != "ok":
-        return False
+    fm = re.match(r"final (.*) ; (.*) ; (.*) txn=(\w+)$", pp[-1]) if pp else None
+    if not fm or f["start"] != "ok" or fm.group(4) != "ok":
+        return False          # (txn=ok: every completed swap-out of the simulation wrote exactly `txnCells` of its slots)
     for real, want, names in ((f["first"], fm.group(1).split(" "), ["k%d" % k for k in range(sc["nkeys"])]),
                               (f["second"], fm.group(2).split(" "), ["k%d" % k for k in range(sc["nkeys"])]),
                               (f["extra"], fm.group(3).split(" "), ["x0", "x1"])):
